@@ -7,6 +7,7 @@ import (
 	"strings"
 
 	"go.lstv.dev/util/uu"
+	"verif/firstuse"
 	"verif/libdefaults"
 	"verif/mc"
 	"verif/oracle"
@@ -244,6 +245,7 @@ var clsNames = [...]string{"accept", "reject", "reject_urn_disabled", "dontcare_
 func main() {
 	mc.Main("C05", "single-position sweeps (each of 128 bits, each of 32 hex positions x 16 digits x 2 cases) over background IDs; all version x variant nibbles; 1-deviation (all 256 byte values) and 2-deviation (stated alphabet) mutants of valid texts x 4 rule subsets; "+
 		"non-trivial = text of accepted length (36 or 45 bytes)", func(r *mc.Run) {
+		firstuse.Phase(r, map[string][]string{"uu": {"format", "parse", "access"}})
 		r.Reset = reset
 		reset()
 		pid := mc.NewProbe(r, "id", nil, probeID)
